@@ -186,6 +186,44 @@ theorem strip_line_of_edges {x : Bytes} (h : Edges x) : strip (32 :: (x ++ [10])
     have : (x ++ [10]).head? = some a := by rw [List.head?_append, ha]; rfl
     rw [lstrip_of_head this hpa, rstrip_snoc_ws x 10 (by decide), rstrip_of_last hb hpb]
 
+/-! ### the reader's `value.strip(b" \\t\\r\\n")`: a subset of what `bytes.strip()` removes -/
+
+theorem parseWs_sub : ∀ c : UInt8, isParseWs c = true → isPyWs c = true := by
+  apply forall_u8; decide +kernel
+
+theorem not_parseWs {c : UInt8} (h : isPyWs c = false) : isParseWs c = false := by
+  cases hp : isParseWs c with
+  | false => rfl
+  | true => rw [parseWs_sub c hp] at h; cases h
+
+theorem plstrip_of_head {x : Bytes} {a : UInt8} (h : x.head? = some a) (hp : isParseWs a = false) : plstrip x = x :=
+  dropWhile_of_head h hp
+
+theorem prstrip_of_last {x : Bytes} {b : UInt8} (h : x.getLast? = some b) (hp : isParseWs b = false) : prstrip x = x := by
+  unfold prstrip
+  rw [dropWhile_of_head (by rw [List.head?_reverse]; exact h) hp, List.reverse_reverse]
+
+theorem prstrip_snoc_ws (x : Bytes) (c : UInt8) (h : isParseWs c = true) : prstrip (x ++ [c]) = prstrip x := by
+  simp [prstrip, h]
+
+theorem plstrip_cons_ws (c : UInt8) (x : Bytes) (h : isParseWs c = true) : plstrip (c :: x) = plstrip x := by
+  simp [plstrip, List.dropWhile, h]
+
+theorem pstrip_of_edges {x : Bytes} (h : Edges x) : pstrip x = x := by
+  rcases h with rfl | ⟨a, b, ha, hpa, hb, hpb⟩
+  · rfl
+  · unfold pstrip; rw [plstrip_of_head ha (not_parseWs hpa), prstrip_of_last hb (not_parseWs hpb)]
+
+/-- the value part of a line `\tkey = VALUE\n` after `line.split(b"=", 1)`: a space, the value, LF -/
+theorem pstrip_line_of_edges {x : Bytes} (h : Edges x) : pstrip (32 :: (x ++ [10])) = x := by
+  unfold pstrip
+  rw [plstrip_cons_ws 32 _ (by decide)]
+  rcases h with rfl | ⟨a, b, ha, hpa, hb, hpb⟩
+  · decide
+  · have : (x ++ [10]).head? = some a := by rw [List.head?_append, ha]; rfl
+    rw [plstrip_of_head this (not_parseWs hpa), prstrip_snoc_ws x 10 (by decide),
+      prstrip_of_last hb (not_parseWs hpb)]
+
 /-! ### first and last byte of what the writer emits -/
 
 theorem escByte_ne_nil : ∀ c : UInt8, escByte c ≠ [] := by
@@ -903,7 +941,7 @@ theorem readLine_entry (pre : Cfg) (sec : Section) (ds : Entries) (k v : Bytes)
   have f7 : isLineContinuation (32 :: (F ++ [10])) = false := no_continuation v
   have f8 : parseString (32 :: (F ++ [10])) = .ok v := by
     unfold parseString
-    rw [strip_line_of_edges (edges_format v), parseLoop_format v]
+    rw [pstrip_line_of_edges (edges_format v), parseLoop_format v]
   have f9 : cfgAppend (pre ++ [(sec, ds)]) sec (a :: k') v = pre ++ [(sec, ds ++ [(a :: k', v)])] := by
     unfold cfgAppend
     rw [cfgModify_last pre sec ds _ hpre]; rfl
